@@ -421,13 +421,14 @@ Fixpoint depth_ref (k : nat) (g : graph) (n : node) : Z :=
   | O => 1
   | S k' => 1 + fold_left (fun a p => Z.max a (depth_ref k' g p)) (preds g n) 0
   end.
-(* n rounds of relaxation: maximum weight of a path ending in each node *)
+(* n rounds of relaxation over a table: after k rounds the entry of a node is the maximum
+   weight of a path that starts there and has at most k+1 nodes *)
 Fixpoint relax_rounds (k : nat) (w : node -> Z) (g : graph) (d : list (node * Z)) : list (node * Z) :=
   match k with
   | O => d
   | S k' => relax_rounds k' w g
-              (map (fun n => (n, w n + fold_left (fun a p => Z.max a (match lookup p d with Some x => x | None => 0 end))
-                                                 (preds g n) 0)) (nodes g))
+              (map (fun n => (n, w n + fold_left (fun a c => Z.max a (match lookup c d with Some x => x | None => 0 end))
+                                                 (children_of g n) 0)) (nodes g))
   end.
 Definition best_weight_relax (w : node -> Z) (g : graph) : Z :=
   fold_left (fun a p => Z.max a (snd p))
@@ -463,3 +464,63 @@ Definition mon (o : mobs) : bool :=
       with_g m (fun g => mon_longest_by enum (fun n => match preds g n with [] => 1 | _ => 2 end) g p)
   | MCrit m w z => with_g m (fun g => z =? best_weight_relax (w_of w) g)
   end.
+
+(* ---------------------------------------------------------------- remove (graph.py:179-187;
+   only used by TaskGraph.clean, which the simulator never calls).  The node is deleted from
+   `_graph` and from the parent lists of its children, but NOT from the children lists of its
+   parents. *)
+Fixpoint remove_first (x : node) (l : list node) : option (list node) :=
+  match l with
+  | [] => None                                   (* list.remove raises ValueError *)
+  | y :: l' => if x =? y then Some l' else match remove_first x l' with Some r => Some (y :: r) | None => None end
+  end.
+Fixpoint del_key {A} (k : node) (a : list (node * A)) : list (node * A) :=
+  match a with
+  | [] => []
+  | (k', v) :: a' => if k =? k' then a' else (k', v) :: del_key k a'
+  end.
+Definition remove_node (g : graph) (n : node) : result graph :=
+  bind (get_children g n) (fun cs =>
+  bind (fold_left (fun (r : result adj) c =>
+                     bind r (fun par => match remove_first n (match lookup c par with Some l => l | None => [] end) with
+                                        | Some l' => Ok (set_key c l' par)
+                                        | None => Err E_VALUE
+                                        end)) cs (Ok (g_parents g))) (fun par =>
+  Ok (mkG (del_key n (g_children g)) par))).
+Definition g_observe_remove (p : adj * node) : val :=
+  match of_mapping (fst p) with
+  | Err e => L [I 1; I e]
+  | Ok g0 =>
+      match remove_node g0 (snd p) with
+      | Err e => L [I 1; I e]
+      | Ok g => L [ I 0; vlist I (nodes g); vlist (fun e => L [I (fst e); I (snd e)]) (get_edges g);
+                    vlist I (get_sources g); vresl (topological_sort g);
+                    vgen (breadth_first g None); vgen (depth_first g None) ]
+      end
+  end.
+
+(* all the observations of one generated case, checked together (the mapping is written once) *)
+Inductive sobs :=
+| STopo (l : list node)
+| STopoErr (code : Z)
+| SBfs (l : list node) (st : Z)
+| SDfs (n : node) (l : list node) (st : Z)
+| SDepth (n : node) (d : Z)
+| SDep (u v : node) (tag b : Z)
+| SLong (p : list node) (enum : bool)
+| SLongDefault (p : list node) (enum : bool)
+| SCrit (z : Z).
+Definition to_mobs (m : adj) (w : list (node * Z)) (s : sobs) : mobs :=
+  match s with
+  | STopo l => MTopo m l
+  | STopoErr c => MTopoErr m c
+  | SBfs l st => MBfs m l st
+  | SDfs n l st => MDfs m n l st
+  | SDepth n d => MDepth m n d
+  | SDep u v tag b => MDep m u v tag b
+  | SLong p enum => MLong m w p enum
+  | SLongDefault p enum => MLongDefault m p enum
+  | SCrit z => MCrit m w z
+  end.
+Definition mon_case (c : adj * list (node * Z) * list sobs) : bool :=
+  let '(m, w, l) := c in forallb (fun s => mon (to_mobs m w s)) l.
